@@ -17,7 +17,8 @@ PROPERTY = "C03"
 LEVEL = "exploration"
 SHARDS = 16
 RULE = ("scenes = ALL sequences of length 1..2 (quick) / 1..3 (thorough) over 9 island archetypes placed on fixed slots, plus "
-        "fixed big scenes (blank image, 49 isolated sources = 3 priorized groups of 20, 196 sources); every scene x mode "
+        "fixed big scenes (blank image, 49 isolated sources = 3 priorized groups of 20, 196 sources; SIN/ZEA/TAN fields 33 x 35 deg "
+        "wide with sources up to 15.7 deg from the reference pixel and no psf map); every scene x mode "
         "{blind, blind+island, priorized stage 1,2,3 x regroup on/off on the blind output}; every row of every catalogue is "
         "checked against the invariants, island rows against an independent flood fill; run histories {fresh object twice, "
         "same object again, fresh process with another hash seed} must give identical catalogues apart from uuids; "
